@@ -1363,6 +1363,10 @@ class Interp:
         self.frame['loops'].append((self.fresh('w'), ('unknown', 'while', e['line'], ''), []))
         self.block(e['body'], env.child())
         self.frame['loops'].pop()
+        # a local that is reassigned in the body carries a value from iteration to iteration; `while` / `loop` recurrences are not summarised:
+        # afterwards its value is unknown (never the value after one iteration)
+        for n in sorted(self.assigned_in(e['body'], env)):
+            env.assign(n, ('unknown', 'loop-carried', e['line'], n))
         return ('tuple', [])
 
     def e_Loop(self, e, env, **kw):
